@@ -6,9 +6,14 @@
   viper.MergeConfig per document, `loaderSeq` the SortOrderedComponents rule on loaders, `loadAll` the loop of
   configure.loadConfigure, `applyOptions` the option fold of App.Run starting from configure.Default().
   Documents are Go maps: `Cfg.wf` (unique keys per map) is the representation invariant, not a restriction.
+  Several Initialize calls on one live Configure: `St` (stored loader list + binder content), `stepOpt`, `initOnce`,
+  `runPhase`.  The last two theorems tie the REGENERATED source of configure.go (loadConfigure, Initialize) to the loop
+  the model mirrors, so an edit of that file is a C15 proof obligation.
 -/
 import IocProofs.Lemmas.Config
 import IocProofs.Lemmas.ConfigSeq
+import IocProofs.Lemmas.ConfigInit
+import IocProofs.Lemmas.SemConfigure
 namespace Ioc.C15
 open Ioc Ioc.Config
 
@@ -154,6 +159,112 @@ theorem C15_add_loader_never_hides (ls : List Loader) (l : Loader)
     rw [hd] at hwf
     exact insert_doc_covers _ _ d hwf p hp
 
+/-! ### several Initialize calls on one live Configure -/
+
+/-- The first Initialize of an App (`Run(opts…)`) in the history model is the one-shot model `loadAll ∘ applyOptions`
+    all theorems above are about. -/
+theorem C15_first_initialize (opts : List Opt) :
+    (runPhase St.app opts).map (·.acc) = loadAll (applyOptions opts) := by
+  simp only [runPhase, St.app, foldl_stepOpt_fresh, initOnce, loadAll, applyOptions]
+  cases h : applyFrom [defaultLoader] opts with
+  | nil => rfl
+  | cons a t =>
+    simp only [List.isEmpty_cons, Bool.false_eq_true, if_false]
+    cases loadLoop (loaderSeq (a :: t)) (.map []) <;> rfl
+
+/-- EVERY INITIALIZE LOADS EVERYTHING: whatever the binder holds (`docs` merged by earlier calls), one more Initialize
+    merges the documents of ALL currently configured loaders, in loader sequence, on top of it, and stores the sorted
+    list.  There is no "already loaded" state: a source added after an Initialize is read by the next one wherever the
+    sort puts it. -/
+theorem C15_initialize_is_merge (s : St) (docs : List Cfg) (hacc : s.acc = mergeAll docs)
+    (hgood : ∀ l ∈ s.loaders, l.good = true) :
+    initOnce s = .ok ⟨loaderSeq s.loaders, mergeAll (docs ++ docsOf s.loaders)⟩ := by
+  rw [initOnce_good s hgood, hacc]
+  simp [mergeAll, List.foldl_append]
+
+/-- The sorted list that loadConfigure stores back does not disturb later calls: loaders appended to it and sorted
+    again stand where the order of ADDITION puts them (the insertion sort is stable). -/
+theorem C15_resort_stable (ls new : List Loader) : loaderSeq (loaderSeq ls ++ new) = loaderSeq (ls ++ new) :=
+  loaderSeq_stored ls new
+
+/-
+  FULL STATEMENT (false of the code for the same reason as C15_last_wins_partial: C15_counterexample):
+    after any Initialize the value at a leaf path is the one of the last CURRENT document defining it.
+  PROVED: with the hypothesis that no document merged so far (earlier calls and this one) holds a map at p.
+-/
+/-- LAST WINS AFTER EVERY INITIALIZE: `i` is the last document of the current loader sequence defining the leaf path
+    `p`; after the Initialize the configuration shows that document's value, whatever earlier Initialize calls merged
+    (`docs0`) — in particular when document `i` belongs to a loader added after them and sorted to the front. -/
+theorem C15_reinit_last_wins_partial (s : St) (docs0 : List Cfg) (hacc : s.acc = mergeAll docs0)
+    (hgood : ∀ l ∈ s.loaders, l.good = true) (hwf : ∀ d ∈ docs0 ++ docsOf s.loaders, d.wf = true)
+    (p : Path) (hp : p ≠ []) (i : Nat) (hi : i < (docsOf s.loaders).length)
+    (v : Cfg) (hdef : (docsOf s.loaders)[i].get p = some v)
+    (hlast : ∀ j (hj : j < (docsOf s.loaders).length), i < j → (docsOf s.loaders)[j].get p = none)
+    (hnc : noMapAt (docs0 ++ docsOf s.loaders) p = true) :
+    ∃ s', initOnce s = .ok s' ∧ s'.loaders = loaderSeq s.loaders ∧ s'.acc.get p = some v := by
+  refine ⟨_, C15_initialize_is_merge s docs0 hacc hgood, rfl, ?_⟩
+  have hs := split_at (docsOf s.loaders) i hi
+  have e : docs0 ++ docsOf s.loaders =
+      (docs0 ++ (docsOf s.loaders).take i) ++ (docsOf s.loaders)[i] :: (docsOf s.loaders).drop (i + 1) := by
+    rw [List.append_assoc, ← hs]
+  show (mergeAll (docs0 ++ docsOf s.loaders)).get p = some v
+  rw [e]
+  apply last_wins_split _ _ _ p v (fun d hd => hwf d (by rw [e]; exact hd)) hp hdef
+  · intro d hd
+    have hm : d ∈ docs0 ++ docsOf s.loaders := by
+      rcases List.mem_append.mp hd with h | h
+      · exact List.mem_append_left _ h
+      · exact List.mem_append_right _ (List.mem_of_mem_take h)
+    have := List.all_eq_true.mp hnc d hm
+    simpa using this
+  · intro d hd
+    obtain ⟨j, hj, hle, rfl⟩ := mem_drop_index (docsOf s.loaders) (i + 1) d hd
+    exact hlast j hj (by omega)
+
+/-- NOTHING IS MISSING after an Initialize, for ANY content of the binder: every path some currently configured
+    loader supplies is visible, and so is every path that was visible before the call. -/
+theorem C15_initialize_never_drops (s : St) (hgood : ∀ l ∈ s.loaders, l.good = true)
+    (hwf : ∀ d ∈ docsOf s.loaders, d.wf = true) :
+    ∃ s', initOnce s = .ok s' ∧
+      (∀ d ∈ docsOf s.loaders, ∀ p, (d.get p).isSome = true → (s'.acc.get p).isSome = true) ∧
+      (∀ p, (s.acc.get p).isSome = true → (s'.acc.get p).isSome = true) :=
+  ⟨_, initOnce_good s hgood, fun d hd p h => isSome_fold_of_mem _ _ p hwf d hd h,
+    fun p h => isSome_fold_of_acc _ _ p hwf h⟩
+
+/-- A SOURCE ADDED TO A LIVE CONFIGURE IS LOADED: after AddConfigLoader / SetConfig(file) / Configure.AddLoaders with a
+    loader `l` of ANY class on a Configure in any state (any number of earlier Initialize calls) and one more
+    Initialize, every path of `l`'s document is visible. -/
+theorem C15_late_source_is_loaded (s : St) (l : Loader) (d : Cfg) (hd : docOf l = some d) (o : Opt)
+    (ho : o = .addLoaders [l] ∨ o = .setConfig l ∨ o = .configureAdd [l])
+    (hgood : ∀ x ∈ s.loaders ++ [l], x.good = true) (hwf : ∀ e ∈ docsOf (s.loaders ++ [l]), e.wf = true) :
+    ∃ s', runPhase s [o] = .ok s' ∧ ∀ p, (d.get p).isSome = true → (s'.acc.get p).isSome = true := by
+  have e : [o].foldl stepOpt s = ⟨s.loaders ++ [l], s.acc⟩ := by
+    rcases ho with rfl | rfl | rfl <;> rfl
+  obtain ⟨s', h1, h2, _⟩ := C15_initialize_never_drops ⟨s.loaders ++ [l], s.acc⟩ hgood hwf
+  refine ⟨s', by simpa [runPhase, e] using h1, fun p hp => h2 d ?_ p hp⟩
+  exact List.mem_filterMap.mpr ⟨l, (loaderSeq_perm _).mem_iff.mpr (by simp), hd⟩
+
+/-! ### code tie: the regenerated configure.go (re-stated from C12, proved in Lemmas/SemConfigure.lean) -/
+
+/-- configure.loadConfigure, REGENERATED from /repo on every run (configure/configure.go:54-72): the loader list is
+    replaced by what SortOrderedComponents returns and ALL of it is walked, from the first loader on, on every call —
+    LoadConfig, then SetConfig when the document is not empty; the first error ends the walk (M4's `twoStepLoop`, the
+    loop `loadLoop`/`initOnce` mirror).  An edit of the function changes the term and this obligation with it. -/
+theorem C15_code_loadConfigure (res : Nat → Ioc.Order.Step) (sorted : List Nat) (w : Ioc.Sem.CfgW) :
+    Ioc.Go.run (Ioc.Sem.cfgPrims res sorted) Ioc.Progs.cfg_loadConfigure [] w =
+      some (if (Ioc.Order.twoStepLoop res sorted w.log).2 then Ioc.Sem.errG else Ioc.Go.Val.nil,
+            { loaders := sorted, log := (Ioc.Order.twoStepLoop res sorted w.log).1 }) :=
+  Ioc.Sem.loadConfigure_sem res sorted w
+
+/-- Configure.Initialize, regenerated: nothing for an empty loader list, otherwise loadConfigure — on EVERY call; the
+    function keeps no "already initialised" / "already loaded" state. -/
+theorem C15_code_Initialize (res : Nat → Ioc.Order.Step) (sorted : List Nat) (w : Ioc.Sem.CfgW) :
+    Ioc.Go.run (Ioc.Sem.initPrims res sorted) Ioc.Progs.cfg_Initialize [] w =
+      if w.loaders.isEmpty then some (Ioc.Go.Val.nil, w)
+      else some (if (Ioc.Order.twoStepLoop res sorted w.log).2 then Ioc.Sem.errG else Ioc.Go.Val.nil,
+                 { loaders := sorted, log := (Ioc.Order.twoStepLoop res sorted w.log).1 }) :=
+  Ioc.Sem.initialize_sem res sorted w
+
 /-- KF-C15-1: the full-strength "last one wins" is FALSE of the code.  First loader `a: {b: 1}`, second loader
     `a: x`: viper keeps the map, the later scalar is ignored (replayed on the real code by the harness corpus
     case `map-then-scalar`). -/
@@ -221,6 +332,35 @@ example : (∀ x ∈ [lRaw 1 e0, fileLoader 2 (.doc e1)] ++ [lRaw 3 e2], x.good 
 -- viper reads keys case-insensitively; an upper-case spelling shadows the lower-case one in the same document
 example : insens (.map [(ofString "a", sv "1"), (ofString "A", sv "2"), (ofString "Kb", .map [(ofString "X", sv "3")])])
     = .map [(ofString "a", sv "2"), (ofString "kb", .map [(ofString "x", sv "3")])] := by decide
+-- several Initialize calls (the history of seeded change C15E): base document, Initialize, then a FILE (sorted to the
+-- front) and another document, Initialize: the loader sequence is file, base, extra and every key is there
+def hBase : Cfg := .map [(ka, .map [(kb, sv "base"), (kc, sv "8080")])]
+def hFile : Cfg := .map [(ka, .map [(kb, sv "file"), (ofString "d", sv "true")]), (kc, .map [(ka, sv "data")])]
+def hExtra : Cfg := .map [(ka, .map [(kc, sv "9090")])]
+def hOpts1 : List Opt := [.setLoaders [lRaw 1 hBase]]
+def hOpts2 : List Opt := [.setConfig (fileLoader 2 (.doc hFile)), .addLoaders [lRaw 3 hExtra]]
+def hAfter (p : Path) : Option (Option Cfg) :=
+  ((runPhase St.app hOpts1).bind fun s => runPhase s hOpts2).toOption.map fun s => s.acc.get p
+example : ((runPhase St.app hOpts1).toOption.map fun s => (s.loaders.map (·.id), s.acc.get [ka, kb])) =
+    some ([1], some (sv "base")) := by decide
+example : (((runPhase St.app hOpts1).bind fun s => runPhase s hOpts2).toOption.map fun s => s.loaders.map (·.id)) =
+    some [2, 1, 3] := by decide
+example : hAfter [ka, kb] = some (some (sv "base")) ∧ hAfter [ka, kc] = some (some (sv "9090")) ∧
+    hAfter [ka, ofString "d"] = some (some (sv "true")) ∧ hAfter [kc, ka] = some (some (sv "data")) := by decide
+-- hypotheses of C15_reinit_last_wins_partial at the second Initialize for p = a.d (only the late file defines it; it is
+-- document 0 of the current sequence) and of C15_late_source_is_loaded / C15_initialize_never_drops
+example : let s : St := ⟨[lRaw 1 hBase, fileLoader 2 (.doc hFile), lRaw 3 hExtra], mergeAll [insens hBase]⟩
+    (∀ l ∈ s.loaders, l.good = true) ∧ (∀ d ∈ [insens hBase] ++ docsOf s.loaders, d.wf = true) ∧
+    (docsOf s.loaders).length = 3 ∧ ((docsOf s.loaders)[0]?.bind (·.get [ka, ofString "d"])) = some (sv "true") ∧
+    ((docsOf s.loaders)[1]?.bind (·.get [ka, ofString "d"])) = none ∧
+    ((docsOf s.loaders)[2]?.bind (·.get [ka, ofString "d"])) = none ∧
+    noMapAt ([insens hBase] ++ docsOf s.loaders) [ka, ofString "d"] = true := by decide
+-- the regenerated Initialize on a Configure that was initialised before (log not empty, list sorted): both loaders are
+-- walked again, the first one included
+example : Ioc.Go.run (Ioc.Sem.initPrims (fun _ => .next false) [1, 0]) Ioc.Progs.cfg_Initialize []
+      { loaders := [0, 1], log := [.first 0, .second 0] } =
+    some (Ioc.Go.Val.nil, { loaders := [1, 0], log := [.first 0, .second 0, .first 1, .second 1, .first 0, .second 0] }) :=
+  (C15_code_Initialize _ _ _).trans (by rfl)
 end examples
 
 end Ioc.C15
